@@ -128,9 +128,34 @@ def _bare(loc):
     return loc if "offset" in loc else None
 
 
+def _macro_end(data, off):
+    """end offset of the macro invocation that starts at `off`: NAME or NAME( balanced )"""
+    n = len(data)
+    i = off
+    while i < n and (chr(data[i]).isalnum() or data[i] == 0x5f):
+        i += 1
+    j = i
+    while j < n and data[j] in b" \t":
+        j += 1
+    if j < n and data[j] == 0x28:
+        depth = 0
+        while j < n:
+            if data[j] == 0x28:
+                depth += 1
+            elif data[j] == 0x29:
+                depth -= 1
+                if depth == 0:
+                    return j + 1
+            j += 1
+        return None
+    return i
+
+
 def _src_text(node, srcs):
-    """source text of an AST node (None when it cannot be located)"""
-    b, e = _bare(node["range"].get("begin")), _bare(node["range"].get("end"))
+    """source text of an AST node (None when it cannot be located).  A node that begins or ends inside a macro
+    expansion is taken to span whole macro invocations (clang reports only where an expansion starts)."""
+    rb, re_ = node["range"].get("begin"), node["range"].get("end")
+    b, e = _bare(rb), _bare(re_)
     if not b or not e or b.get("_file") != e.get("_file") or not b.get("_file"):
         return None
     f = b["_file"]
@@ -139,7 +164,13 @@ def _src_text(node, srcs):
             srcs[f] = open(f, "rb").read()
         except OSError:
             return None
-    return srcs[f][b["offset"]:e["offset"] + e.get("tokLen", 0)].decode(errors="replace")
+    if re_ is not None and "expansionLoc" in re_:
+        end = _macro_end(srcs[f], e["offset"])
+        if end is None:
+            return None
+    else:
+        end = e["offset"] + e.get("tokLen", 0)
+    return srcs[f][b["offset"]:end].decode(errors="replace")
 
 
 def _qual(node):
@@ -231,9 +262,175 @@ def _cond_leaves(n):
     return None
 
 
-def analyse_tostr(fn, srcs):
-    """returns dict(shape, table, param_type, guards=[dict(op, chain=[types], cmp_type, const_src)])"""
-    res = {"shape": "unrecognised", "table": None, "param_type": None, "guards": [], "why": ""}
+def _const_param_text(n, consts):
+    """n references (through casts) one parameter of a helper that the caller binds to a constant
+    expression: C text of the value, or None.  consts: param id -> (param type, caller's argument text)"""
+    casts = []
+    while True:
+        k = n.get("kind")
+        if k == "ParenExpr":
+            n = n["inner"][0]
+        elif k == "ImplicitCastExpr":
+            if n.get("castKind") == "IntegralCast":
+                casts.append(_qual(n))
+            elif n.get("castKind") not in ("LValueToRValue", "NoOp"):
+                return None
+            n = n["inner"][0]
+        elif k == "CStyleCastExpr":
+            if n.get("castKind") not in ("IntegralCast", "NoOp"):
+                return None
+            casts.append(_qual(n))
+            n = n["inner"][0]
+        elif k == "DeclRefExpr":
+            pid = n.get("referencedDecl", {}).get("id")
+            if pid not in consts:
+                return None
+            ty, txt = consts[pid]
+            out = "((%s)(%s))" % (ty, txt)
+            for c in reversed(casts):
+                out = "((%s)%s)" % (c, out)
+            return out
+        else:
+            return None
+
+
+def _refs_any_param(n, ids):
+    if n.get("kind") == "DeclRefExpr" and n.get("referencedDecl", {}).get("id") in ids:
+        return True
+    return any(_refs_any_param(c, ids) for c in n.get("inner", []) if isinstance(c, dict))
+
+
+def _analyse_body(stmts, pid, srcs, table_ok, consts, res):
+    """the two recognised shapes over a statement list.  pid: id of the value parameter; table_ok(node) ->
+    name of the table or None; consts: parameters bound to constant expressions by the caller.
+    fills res[guards], res[index_chain], res[table]; returns the final return expression when it is not an
+    array element (possible delegation), else None.  res[shape] stays 'unrecognised' on any surprise."""
+    if not stmts:
+        res["why"] = "empty body"
+        return None
+    last = stmts[-1]
+    if last.get("kind") != "ReturnStmt" or not last.get("inner"):
+        res["why"] = "last statement is not a return"
+        return None
+    guards = []
+    for s in stmts[:-1]:
+        if s.get("kind") != "IfStmt" or s.get("hasElse") or len(s.get("inner", [])) != 2:
+            res["why"] = "statement before the return is not a plain if"
+            return None
+        cond, then = s["inner"]
+        if not _is_null_return(then):
+            res["why"] = "if-branch does not return NULL"
+            return None
+        leaves = _cond_leaves(cond)
+        if leaves is None:
+            res["why"] = "condition is not a disjunction of comparisons"
+            return None
+        for lf in leaves:
+            a, b = lf["inner"]
+            op = lf["opcode"]
+            if _refs_param(a, pid) and not _refs_param(b, pid):
+                pp, c = a, b
+            elif _refs_param(b, pid) and not _refs_param(a, pid):
+                pp, c, op = b, a, CMP_FLIP[op]
+            else:
+                res["why"] = "comparison does not have exactly one parameter side"
+                return None
+            chain = _param_chain(pp, pid)
+            if chain is None:
+                res["why"] = "parameter side is not a cast chain"
+                return None
+            cmp_type = _qual(pp)          # type of the operand after the usual arithmetic conversions
+            if _qual(c) != cmp_type:
+                res["why"] = "operand types differ after conversion (%s vs %s)" % (cmp_type, _qual(c))
+                return None
+            if _refs_any_param(c, set(consts)):
+                txt = _const_param_text(c, consts)
+                if not txt:
+                    res["why"] = "constant side uses a parameter in an unsupported way"
+                    return None
+            else:
+                if _contains_kind(c, ("DeclRefExpr",)) and _refs_nonconst_decl(c):
+                    res["why"] = "constant side refers to a variable"
+                    return None
+                txt = _src_text(c, srcs)
+            if not txt:
+                res["why"] = "cannot locate the source text of a constant operand"
+                return None
+            guards.append({"op": op, "chain": res["prefix"] + chain, "cmp_type": cmp_type, "const_src": txt})
+    res["guards"] = res["guards"] + guards
+    e = _strip(last["inner"][0])
+    if e.get("kind") != "ArraySubscriptExpr":
+        return e
+    base, idx = _strip(e["inner"][0]), e["inner"][1]
+    tb = table_ok(base)
+    if not tb:
+        res["why"] = "array is not the name table"
+        return None
+    res["table"] = tb
+    ch = _param_chain(idx, pid)
+    if ch is None:
+        res["why"] = "index is not the (cast) parameter"
+        return None
+    res["index_chain"] = res["prefix"] + ch
+    res["shape"] = "guarded" if res["guards"] else "unchecked"
+    return None
+
+
+def _contains_kind(n, kinds):
+    if n.get("kind") in kinds:
+        return True
+    return any(_contains_kind(c, kinds) for c in n.get("inner", []) if isinstance(c, dict))
+
+
+def _refs_nonconst_decl(n):
+    """does the expression mention a parameter or a non-constant variable? (enumerators, const arrays in
+    sizeof and functions are fine)"""
+    if n.get("kind") == "DeclRefExpr":
+        rd = n.get("referencedDecl", {})
+        if rd.get("kind") == "ParmVarDecl":
+            return True
+    return any(_refs_nonconst_decl(c) for c in n.get("inner", []) if isinstance(c, dict))
+
+
+def _find_function(name, tu, srcs):
+    """definition (FunctionDecl with a body) of `name`: in the given translation unit, else in the repo
+    source file that defines it"""
+    def in_tu(t):
+        for n in t.get("inner", []):
+            if n.get("kind") == "FunctionDecl" and n.get("name") == name and \
+                    any(c.get("kind") == "CompoundStmt" for c in n.get("inner", [])):
+                return n
+        return None
+    f = in_tu(tu)
+    if f is not None:
+        return f
+    pat = re.compile(r"\b%s\s*\(" % re.escape(name))
+    for rel in vlib.REPO_SOURCES:
+        path = os.path.join(vlib.REPO, rel)
+        try:
+            txt = open(path, errors="replace").read()
+        except OSError:
+            continue
+        if not pat.search(txt):
+            continue
+        r = subprocess.run(["clang-14", "-fsyntax-only", "-Xclang", "-ast-dump=json"] + _cflags() + [path],
+                           stdout=subprocess.PIPE, stderr=subprocess.PIPE)
+        if r.returncode != 0:
+            continue
+        t = json.loads(r.stdout)
+        _annotate_files(t, [path])
+        f = in_tu(t)
+        if f is not None:
+            return f
+    return None
+
+
+def analyse_tostr(fn, srcs, tu=None):
+    """returns dict(shape, table, param_type, guards=[dict(op, chain=[types], cmp_type, const_src)],
+    index_chain=[types], via=helper name or None).  One level of delegation
+    `return helper(table, <constant expressions>, param);` is followed into the helper's body."""
+    res = {"shape": "unrecognised", "table": None, "param_type": None, "guards": [], "why": "", "index_chain": [],
+           "prefix": [], "via": None}
     parms = [c for c in fn.get("inner", []) if c.get("kind") == "ParmVarDecl"]
     body = [c for c in fn.get("inner", []) if c.get("kind") == "CompoundStmt"]
     if len(parms) != 1 or len(body) != 1:
@@ -241,65 +438,78 @@ def analyse_tostr(fn, srcs):
         return res
     pid = parms[0]["id"]
     res["param_type"] = _qual(parms[0])
-    stmts = body[0].get("inner", [])
-    if not stmts:
-        res["why"] = "empty body"
+
+    def global_table(base):
+        if base.get("kind") == "DeclRefExpr" and base.get("referencedDecl", {}).get("kind") == "VarDecl":
+            return base["referencedDecl"]["name"]
+        return None
+    e = _analyse_body(body[0].get("inner", []), pid, srcs, global_table, {}, res)
+    if e is None:
         return res
-    last = stmts[-1]
-    if last.get("kind") != "ReturnStmt" or not last.get("inner"):
-        res["why"] = "last statement is not a return"
+    # ---- delegation to a helper
+    if e.get("kind") != "CallExpr" or tu is None:
+        res["why"] = "return value is neither an array element nor a call"
         return res
-    e = _strip(last["inner"][0])
-    if e.get("kind") != "ArraySubscriptExpr":
-        res["why"] = "return value is not an array element"
+    callee = _strip(e["inner"][0])
+    if callee.get("kind") != "DeclRefExpr" or callee.get("referencedDecl", {}).get("kind") != "FunctionDecl":
+        res["why"] = "indirect call"
         return res
-    base, idx = _strip(e["inner"][0]), e["inner"][1]
-    if base.get("kind") != "DeclRefExpr" or base.get("referencedDecl", {}).get("kind") != "VarDecl":
-        res["why"] = "array is not a variable"
+    hname = callee["referencedDecl"]["name"]
+    args = e["inner"][1:]
+    helper = _find_function(hname, tu, srcs)
+    if helper is None:
+        res["why"] = "definition of helper %s not found" % hname
         return res
-    res["table"] = base["referencedDecl"]["name"]
-    ch = _param_chain(idx, pid)
-    if ch is None or ch:
-        res["why"] = "index is not the bare parameter"
+    hparms = [c for c in helper.get("inner", []) if c.get("kind") == "ParmVarDecl"]
+    hbody = [c for c in helper.get("inner", []) if c.get("kind") == "CompoundStmt"]
+    if len(hparms) != len(args) or len(hbody) != 1:
+        res["why"] = "helper %s: unexpected signature" % hname
         return res
-    guards = []
-    for s in stmts[:-1]:
-        if s.get("kind") != "IfStmt" or s.get("hasElse") or len(s.get("inner", [])) != 2:
-            res["why"] = "statement before the return is not a plain if"
-            return res
-        cond, then = s["inner"]
-        if not _is_null_return(then):
-            res["why"] = "if-branch does not return NULL"
-            return res
-        leaves = _cond_leaves(cond)
-        if leaves is None:
-            res["why"] = "condition is not a disjunction of comparisons"
-            return res
-        for lf in leaves:
-            a, b = lf["inner"]
-            op = lf["opcode"]
-            if _refs_param(a, pid) and not _refs_param(b, pid):
-                p, c = a, b
-            elif _refs_param(b, pid) and not _refs_param(a, pid):
-                p, c, op = b, a, CMP_FLIP[op]
-            else:
-                res["why"] = "comparison does not have exactly one parameter side"
+    tab_idx = val_idx = None
+    consts = {}
+    table = None
+    for k, a in enumerate(args):
+        st = _strip(a)
+        if _refs_param(a, pid):
+            ch = _param_chain(a, pid)
+            if ch is None or val_idx is not None:
+                res["why"] = "helper %s: parameter passed in an unsupported way" % hname
                 return res
-            chain = _param_chain(p, pid)
-            if chain is None:
-                res["why"] = "parameter side is not a cast chain"
+            val_idx = k
+            res["prefix"] = ch if ch and ch[-1] == _qual(hparms[k]) else ch + [_qual(hparms[k])]
+        elif global_table(st) and st.get("type", {}).get("qualType", "").endswith("]"):
+            if tab_idx is not None:
+                res["why"] = "helper %s: two tables" % hname
                 return res
-            cmp_type = _qual(p)          # type of the operand after the usual arithmetic conversions
-            if _qual(c) != cmp_type:
-                res["why"] = "operand types differ after conversion (%s vs %s)" % (cmp_type, _qual(c))
+            tab_idx, table = k, global_table(st)
+        else:
+            if _refs_nonconst_decl(a):
+                res["why"] = "helper %s: non-constant argument" % hname
                 return res
-            txt = _src_text(c, srcs)
+            txt = _src_text(a, srcs)
             if not txt:
-                res["why"] = "cannot locate the source text of a constant operand"
+                res["why"] = "helper %s: cannot locate an argument" % hname
                 return res
-            guards.append({"op": op, "chain": chain, "cmp_type": cmp_type, "const_src": txt})
-    res["guards"] = guards
-    res["shape"] = "guarded" if guards else "unchecked"
+            consts[hparms[k]["id"]] = (_qual(hparms[k]), txt)
+    if tab_idx is None or val_idx is None:
+        res["why"] = "helper %s: table or value argument missing" % hname
+        return res
+    names_pid = hparms[tab_idx]["id"]
+
+    def param_table(base):
+        if base.get("kind") == "DeclRefExpr" and base.get("referencedDecl", {}).get("id") == names_pid:
+            return table
+        return None
+    res["via"] = hname
+    e2 = _analyse_body(hbody[0].get("inner", []), hparms[val_idx]["id"], srcs, param_table, consts, res)
+    if e2 is not None:
+        res["shape"] = "unrecognised"
+        res["why"] = "helper %s does not return an array element" % hname
+    if res["shape"] == "unrecognised":
+        res["guards"] = []
+        res["table"] = res["table"] or table
+    elif not res["why"]:
+        res["why"] = "via helper %s" % hname
     return res
 
 
@@ -356,7 +566,7 @@ def _collect(unit, tu, info):
         elif k == "FunctionDecl":
             for (u, fname, _p, _t) in TOSTR:
                 if u == unit and n.get("name") == fname and any(c.get("kind") == "CompoundStmt" for c in n.get("inner", [])):
-                    info["tostr"][fname] = analyse_tostr(n, info["srcs"])
+                    info["tostr"][fname] = analyse_tostr(n, info["srcs"], tu)
 
 
 def _hexs(s):
@@ -448,6 +658,8 @@ def extract():
     for (u, fname, _p, _t) in TOSTR:
         t = info["tostr"][fname]
         per_unit[u]["types"].append(("%s.param" % fname, t["param_type"]))
+        for ci, ty in enumerate(t.get("index_chain", [])):
+            per_unit[u]["types"].append(("%s.idx.c%d" % (fname, ci), ty))
         for gi, g in enumerate(t["guards"]):
             for ci, ty in enumerate(g["chain"]):
                 per_unit[u]["types"].append(("%s.g%d.c%d" % (fname, gi, ci), ty))
@@ -466,6 +678,7 @@ def extract():
                         info["tostr"][fname]["shape"] = "unrecognised"
                         info["tostr"][fname]["why"] = "guard operand does not evaluate in the probe"
                         info["tostr"][fname]["guards"] = []
+                        info["tostr"][fname]["index_chain"] = []
                 per_unit[u] = {"types": [t for t in per_unit[u]["types"] if t[0].endswith(".param")], "exprs": []}
                 lines, log = _run_probe(u, _probe_source(u, info, per_unit[u]))
             if lines is None:
@@ -587,8 +800,10 @@ def emit(info):
                 g["op"], " ".join(g["const_src"].split())[:80]))
         shape = {"unchecked": ".unchecked", "guarded": ".guarded", "unrecognised": ".unrecognised"}[t["shape"]]
         N.append("\n/-- body of `%s` as found in the source%s -/\n" % (fname, (" (" + t["why"] + ")") if t["why"] else ""))
-        N.append("def %sFn : ToStrFn :=\n  { shape := %s\n    paramTy := ⟨%d, %s⟩\n    guards := [%s] }\n" % (
+        idxc = [v["type"]["%s.idx.c%d" % (fname, ci)] for ci in range(len(t.get("index_chain", [])))]
+        N.append("def %sFn : ToStrFn :=\n  { shape := %s\n    paramTy := ⟨%d, %s⟩\n    indexConvs := [%s]\n    guards := [%s] }\n" % (
             pre, shape, pb, "true" if ps else "false",
+            ", ".join("⟨%d, %s⟩" % (b, "true" if sg else "false") for b, sg in idxc),
             ("\n      " + "      , ".join(guards) + "    ") if guards else ""))
         N.append("/-- does `%s` check its index before reading `%s`? -/\n" % (fname, tb))
         N.append("def %sGuarded : Bool := %s\n" % (pre, "true" if t["shape"] == "guarded" else "false"))
